@@ -74,8 +74,9 @@ class Analyzer:
         u = fn['u']
         if u in self.cache: return self.cache[u]
         if self.stack:
+            # nested: kept for the rest of this outermost analysis; if an assumption is refuted, the outermost analysis clears the cache and starts again
             r = self._run(fn)
-            if not self.refuted: self.cache[u] = r
+            self.cache[u] = r
             return r
         for _ in range(40):
             self.refuted = False; self.assumed = set()
